@@ -70,3 +70,35 @@ Definition esc_byte (c : byte) : str :=
   else if c =? 13 then [38;35;120;68;59]      (* &#xD; *)
   else [c].
 Definition esc_text (s : str) : str := flat_map esc_byte s.
+
+(* an attribute as the encoder prints it: space, name, ="escaped value" *)
+Definition print_attr (pname : xname -> str) (a : xattr) : str :=
+  [32] ++ pname (fst a) ++ [61; 34] ++ esc_text (snd a) ++ [34].
+Definition is_elem (n : xnode) : bool := match n with XElem _ _ _ => true | XText _ => false end.
+(* Encoder.Indent("", ind) seen on the tree: a line break and depth-many [ind] before every start tag, and
+   before an end tag that does not directly follow its start tag or character data; nothing at all when
+   [ind] is empty.  Meant for trees whose elements have either element children only or at most one text child. *)
+Fixpoint indent_tree (ind : str) (d : nat) (n : xnode) : xnode :=
+  match n with
+  | XText s => XText s
+  | XElem nm al ks =>
+    if existsb is_elem ks
+    then XElem nm al (flat_map (fun k => [XText (10 :: concat (repeat ind (S d))); indent_tree ind (S d) k]) ks
+                      ++ [XText (10 :: concat (repeat ind d))])
+    else XElem nm al ks
+  end.
+Definition indent_doc (ind : str) (n : xnode) : xnode := match ind with [] => n | _ => indent_tree ind 0 n end.
+(* the bytes of a tree as the encoder prints it with Indent("", ind): explicit end tags, EscapeText on
+   character data and attribute values, raw indentation; [pname] prints a name (prefix:local).
+   Parsing these bytes gives [indent_doc ind n] (XML-layer contract). *)
+Definition indent_str (ind : str) (d : nat) : str := match ind with [] => [] | _ => 10 :: concat (repeat ind d) end.
+Fixpoint print_node (pname : xname -> str) (ind : str) (d : nat) (n : xnode) : str :=
+  match n with
+  | XText s => esc_text s
+  | XElem nm al ks =>
+    [60] ++ pname nm ++ flat_map (print_attr pname) al ++ [62]
+    ++ (if existsb is_elem ks
+        then flat_map (fun k => indent_str ind (S d) ++ print_node pname ind (S d) k) ks ++ indent_str ind d
+        else flat_map (print_node pname ind (S d)) ks)
+    ++ [60; 47] ++ pname nm ++ [62]
+  end.
